@@ -62,10 +62,25 @@ def generate(rng, tier):
     if rng.random() < 0.15:
         # withdrawal while the registration's own announcements (at +0.35, +0.575, +0.8 s) are still going out
         t_w = t_regs[victim] + 0.35 + rng.choice([0.001, 0.05, 0.2, 0.224, 0.225, 0.226, 0.4, 0.449, 0.45, 0.451])
+    stale = False
+    if mode == "unregister" and rng.random() < 0.2:
+        # the service was updated through a new ServiceInfo object before; some applications then unregister through
+        # the object they registered first
+        v2 = dict(svcs[victim])
+        v2["props"] = {"v": "2"}
+        v2["port"] = svcs[victim]["port"] + 1
+        t_upd = round(max(t_ready, t_w - rng.choice([0.05, 0.3, 1.0, 2.5])), 6)
+        if t_upd < t_w:
+            ops.append({"t": t_upd, "op": "update", "h": "R", "svc": v2})
+            stale = rng.random() < 0.7
     if mode == "close":
         ops.append({"t": t_w, "op": "close", "h": "R"})
     else:
-        ops.append({"t": t_w, "op": "unregister", "h": "R", "name": svcs[victim]["name"]})
+        ops.append({"t": t_w, "op": "unregister", "h": "R", "name": svcs[victim]["name"], "stale": stale})
+        if rng.random() < 0.2:
+            # ... and the instance is closed while those goodbyes are still going out
+            ops.append({"t": round(t_w + rng.choice([0.0, 0.001, 0.05, 0.124, 0.125, 0.126, 0.2, 0.26, 0.6]), 6),
+                        "op": "close", "h": "R"})
     # queries after the withdrawal started
     for _ in range(rng.choice([0, 1, 2])):
         ops.append(_query_op(rng, t_w + rng.choice([0.0, 0.05, 0.13, 0.26, 0.4, 1.0, 2.0]), svcs, victim))
@@ -73,6 +88,11 @@ def generate(rng, tier):
     if mode == "unregister" and rng.random() < 0.2:
         reregister = t_w + rng.choice([0.3, 0.6, 1.5])
         ops.append({"t": reregister, "op": "register", "h": "R", "svc": svcs[victim]})
+    if rng.random() < 0.3:
+        # the responder's process is descheduled for a while: queries pile up in its socket, its timers fire late
+        for _ in range(rng.choice([1, 1, 2])):
+            ops.append({"t": round(max(t_ready, rng.choice([last_q, t_w]) + rng.choice([-0.3, -0.05, 0.0, 0.001, 0.1, 0.2, 0.4])), 6),
+                        "op": "stall", "h": "R", "dur": rng.choice([0.005, 0.05, 0.13, 0.3, 0.6, 1.1])})
     ops.sort(key=lambda o: o["t"])
     faults = {"max_delay_us": rng.choice([0, 1000, 20000, 100000]), "loop_delay_us": rng.choice([0, 100, 1000]),
               "dup_p": rng.choice([0.0, 0.0, 0.1]), "b2b_p": rng.choice([0.0, 0.0, 0.1])}
@@ -139,6 +159,8 @@ def _oracle(w, drv, sc, out):
     for e in w.api_log:
         if e["op"] == "register" and e["exc"] is None and e["t_done"] is not None:
             timeline.append((e["t_done"], "reg", e["args"]))
+        elif e["op"] == "update" and e["exc"] is None:
+            timeline.append((e["t_call"], "upd", e["svc"]))
         elif e["op"] == "unregister":
             timeline.append((e["t_call"], "unreg", e["args"]))
         elif e["op"] == "close":
@@ -147,7 +169,10 @@ def _oracle(w, drv, sc, out):
     reg = {}
     withdrawals = []
     for t, kind, name in timeline:
-        if kind == "reg":
+        if kind == "upd":
+            if name["name"].lower() in reg:
+                reg[name["name"].lower()] = name
+        elif kind == "reg":
             reg[name.lower()] = svcs[name.lower()]
         elif kind == "unreg":
             s = reg.pop(name.lower(), None)
@@ -179,8 +204,9 @@ def _oracle(w, drv, sc, out):
                 if recs.ptr.ident() in zero:
                     gb.append((tx, zero))
             # a later re-registration of the same name closes the window
-            t_rereg = min([t for t, k, n in timeline if k == "reg" and n.lower() == s["name"].lower() and t > wd["t"]],
-                          default=None)
+            t_rereg = min([t for t, k, n in timeline if t > wd["t"] and
+                           ((k == "reg" and n.lower() == s["name"].lower()) or
+                            (k == "upd" and n["name"].lower() == s["name"].lower()))], default=None)
             per_sock = {}
             for tx, zero in gb:
                 per_sock.setdefault(tx.sock, []).append((tx, zero))
@@ -188,18 +214,22 @@ def _oracle(w, drv, sc, out):
                 out.add("C08.goodbye-missing", f"no goodbye for {s['name']} after {wd['mode']} at {w.rel(wd['t']):.3f}",
                         mode=wd["mode"])
                 continue
+            complete = []
             for sock, lst in per_sock.items():
+                # (another goodbye sequence for the same name may be interleaved - an unregister through a ServiceInfo
+                # that is no longer the registered one - so complete goodbyes are counted, not the first three)
+                full = [tx for tx, zero in lst if must_ids <= zero]
                 if len(lst) < 3:
                     out.add("C08.goodbye-count", f"{len(lst)} goodbye transmissions for {s['name']} on {sock} after "
                             f"{wd['mode']} at {w.rel(wd['t']):.3f}, expected 3", mode=wd["mode"], n=len(lst))
-                for tx, zero in lst[:3]:
-                    miss = must_ids - zero
-                    if miss:
-                        out.add("C08.goodbye-incomplete", f"goodbye at {w.rel(tx.t):.3f} for {s['name']} lacks TTL-0 copies "
-                                f"of {sorted(miss)[:3]}", mode=wd["mode"])
-                        break
-            complete = [lst[2][0].t for lst in per_sock.values() if len(lst) >= 3]
-            if not complete:
+                elif len(full) < 3:
+                    tx, zero = next((tx, zero) for tx, zero in lst if not must_ids <= zero)
+                    out.add("C08.goodbye-incomplete", f"goodbye at {w.rel(tx.t):.3f} for {s['name']} lacks TTL-0 copies "
+                            f"of {sorted(must_ids - zero)[:3]}; {len(full)} of {len(lst)} goodbyes on {sock} are complete",
+                            mode=wd["mode"])
+                else:
+                    complete.append(full[2].t)
+            if len(complete) < len(per_sock):
                 continue
             t_g = max(complete)
             out.nontrivial = True
